@@ -104,3 +104,34 @@ func VerifHarness_C13_Analyzer3() {
 	c13Analyze(3, 0, 1)
 	c13Markers = saved
 }
+
+// very large directories: the same rules
+func VerifHarness_C13_AnalyzerHuge() {
+	dir := verifFSRoot() + "/proj"
+	n := []int{999, 1001, 1500}[verifIntRange("entries", 0, 2)]
+	for i := 0; i < n; i++ {
+		verifFSPutBytes(dir+"/f"+string(rune('0'+i/1000))+string(rune('0'+i/100%10))+string(rune('0'+i/10%10))+string(rune('0'+i%10)), nil)
+	}
+	markers := verifIntRange("markers", 0, 2)
+	if markers >= 1 {
+		verifFSPutBytes(dir+"/go.mod", nil)
+	}
+	if markers >= 2 {
+		verifFSPutBytes(dir+"/go.sum", nil)
+	}
+	ctx, err := NewAnalyzer().AnalyzeDirectory(dir)
+	verifAssert(err == nil && ctx != nil, "C13: analysing a directory never fails")
+	if ctx == nil {
+		return
+	}
+	for x := range ctx.ProjectTypes {
+		for y := 0; y < x; y++ {
+			verifAssert(ctx.ProjectTypes[x] != ctx.ProjectTypes[y], "C13: each project type is reported at most once")
+		}
+	}
+	verifAssert(len(ctx.ProjectTypes) >= 1, "C13: some project type is always reported")
+	if markers == 0 {
+		verifAssert(len(ctx.ProjectTypes) == 1 && ctx.ProjectTypes[0] == ProjectTypeGeneric, "C13: 'generic' is reported exactly when nothing else is recognised")
+	}
+	verifReach("analysed")
+}
